@@ -52,8 +52,9 @@ def scenarios(tp, tier):
         out += ["sc=abandon-resolving", "sc=abandon-connecting", "sc=abandon-handshaking", "sc=conn-dns", "sc=dns-fail"]
     if tp in TCPISH and tp != "utls":
         out += ["sc=conn-local"]
-    if tp in ("ux", "uxf", "tcp", "btcp", "utls"):
-        out += ["sc=conn-b"]                 # blocking sockets (single-threaded driver: no TLS handshake possible)
+    if tp in ("ux", "uxf", "tcp", "btcp"):
+        out += ["sc=conn-b"]                 # blocking sockets (single-threaded driver: no TLS handshake possible,
+                                             # and utls falls back to TLS when the UX connect is refused)
     if tp in TLSISH:
         out += ["sc=badcert"]
     if tier != "quick":
